@@ -205,7 +205,7 @@ private:
 	static size_t calc_reserve(size_t sz, size_t res)
 	{
 		if (!sz)  // special case - reserve means number to reserve, not %
-			return res;
+			return res ? res : 1;
 		const size_t val(sz * res / 100);
 		return val ? val : 1;
 	}
